@@ -93,6 +93,11 @@ def delete (g : G) (sub : List Nat) : Except Err G := do
   let gone := sub ++ purgedCarriers exits
   pure { elems := g.elems.filter (· ∉ gone), refs := refs2 }
 
+/-- `_check_deletable` in front of `_delete`: when one of the elements to delete (`roots`) has no parent element — it
+is the root of its own fragment file — the call raises NotImplementedError before any purge context is entered. -/
+def checked (roots parentless : List Nat) (k : Except Err G) : Except Err G :=
+  if roots.any (· ∈ parentless) then .error .notImplemented else k
+
 end Capella.Delete
 
 namespace Capella.Delete
